@@ -4,6 +4,8 @@ import (
 	"bytes"
 	"context"
 	"encoding/json"
+	"iter"
+	"os"
 	"path/filepath"
 	"strings"
 	"sync"
@@ -40,11 +42,42 @@ func (h histCase) wire() string {
 			out[i] = "N:" + hxs(p[1])
 		case "A":
 			out[i] = "A:" + p[1] + ":" + hxs(p[2])
+		case "M":
+			// a real Mkdir with file extensions into a fresh directory, followed by a strict Verify of what it made:
+			// for the model this is the verdict about the names (its dry run) – the tree is what it was
+			out[i] = "D:" + p[1]
+		case "I", "P":
+			// I: a sequence is obtained from WalkIterFromRoot and kept; P: another From-Root operation with other
+			// branch strings on the same tree, its result thrown away – neither is an observation
+			out[i] = ""
+		case "R":
+			// the k-th kept sequence is ranged now: the callback walk of its root, now
+			out[i] = "W:" + h.seqRoot(p[1])
 		default:
 			out[i] = op
 		}
 	}
-	return strings.Join(out, ";")
+	var kept []string
+	for _, o := range out {
+		if o != "" {
+			kept = append(kept, o)
+		}
+	}
+	return strings.Join(kept, ";")
+}
+
+// seqRoot: the node id the k-th "I" operation of the history was given
+func (h histCase) seqRoot(k string) string {
+	n := 0
+	for _, op := range h.Ops {
+		if p := strings.Split(op, ":"); p[0] == "I" {
+			if fmtInt(n) == k {
+				return p[1]
+			}
+			n++
+		}
+	}
+	return "nil"
 }
 
 // realHist runs the history on the real API; node ids are positions in creation order.
@@ -74,9 +107,71 @@ func realHist(h histCase) []string {
 	}
 	var res []string
 	fo := fmtOpts(h.Fmt)
+	var seqs []iter.Seq2[*gtree.WalkerNode, error]
 	for _, op := range h.Ops {
 		p := strings.Split(op, ":")
 		switch p[0] {
+		case "M":
+			// variants: s(imple) | a(lias) | m(assive) | am
+			jail := newJail()
+			o := []gtree.Option{gtree.WithTargetDir(filepath.Join(jail, "t")), gtree.WithFileExtensions([]string{".go", ".md"})}
+			if strings.Contains(p[2], "m") {
+				o = append(o, gtree.WithMassive(context.Background()))
+			}
+			var err error
+			if strings.Contains(p[2], "a") {
+				err = gtree.MkdirProgrammably(get(p[1]), o...)
+			} else {
+				err = gtree.MkdirFromRoot(get(p[1]), o...)
+			}
+			r := "e=" + classify(err)
+			if err == nil {
+				// what the call has just made is, strictly, the tree it was given
+				if verr := gtree.VerifyFromRoot(get(p[1]), gtree.WithTargetDir(filepath.Join(jail, "t")), gtree.WithStrictVerify()); verr != nil {
+					r += " but a strict Verify of the directory Mkdir has just made says: " + classifyRel(verr, jail)
+				}
+			}
+			os.RemoveAll(jail)
+			res = append(res, r)
+		case "I":
+			if p[2] == "a" {
+				seqs = append(seqs, gtree.WalkIterProgrammably(get(p[1]), fo...))
+			} else {
+				seqs = append(seqs, gtree.WalkIterFromRoot(get(p[1]), fo...))
+			}
+		case "P":
+			var b bytes.Buffer
+			other := fmtCustom
+			if h.Fmt == fmtCustom {
+				other = fmtMulti
+			}
+			switch p[2] {
+			case "o":
+				gtree.OutputFromRoot(&b, get(p[1]), fmtOpts(other)...)
+			case "w":
+				gtree.WalkFromRoot(get(p[1]), func(*gtree.WalkerNode) error { return nil }, fmtOpts(other)...)
+			default:
+				for _, err := range gtree.WalkIterFromRoot(get(p[1]), fmtOpts(other)...) {
+					if err != nil {
+						break
+					}
+				}
+			}
+		case "R":
+			var k int
+			for _, ch := range p[1] {
+				k = k*10 + int(ch-'0')
+			}
+			var vs []string
+			var ierr error
+			for wn, err := range seqs[k] {
+				if err != nil {
+					ierr = err
+					break
+				}
+				vs = append(vs, showVisit(wn))
+			}
+			res = append(res, "v="+showVisits(vs)+" e="+classify(ierr))
 		case "N":
 			res = append(res, "id="+fmtInt(idOf(gtree.NewRoot(p[1]))))
 		case "A":
@@ -222,14 +317,89 @@ func runC13(ctx *Ctx) *Report {
 			hs = append(hs, h)
 		}
 	}
+	// histories with a real Mkdir (file extensions; files and directories in every sibling order) before other
+	// operations on the same tree, and with iterator sequences that are kept in a variable while the tree grows or
+	// goes through operations with other branch strings, and are ranged later, some of them twice
+	{
+		fnames := []string{"a", "b", "x.go", "README.md", "c", "main.go", "docs"}
+		for k := 0; k < pickInt(ctx.Thorough, 20000, 1200); k++ {
+			h := histCase{Kind: "hist", Fmt: allFormats()[k%len(allFormats())]}
+			created := map[string]int{} // parent id + name -> node id (Add of an existing name creates nothing)
+			var rootsOf []int           // node id -> id of its root
+			nseq := 0
+			add := func(parent int, name string) {
+				h.Ops = append(h.Ops, "A:"+fmtInt(parent)+":"+name)
+				key := fmtInt(parent) + "/" + name
+				if _, ok := created[key]; !ok {
+					created[key] = len(rootsOf)
+					rootsOf = append(rootsOf, rootsOf[parent])
+				}
+			}
+			nops := 8 + ctx.Rng.Intn(40)
+			for j := 0; j < nops; j++ {
+				n := len(rootsOf)
+				switch r := ctx.Rng.Intn(16); {
+				case n == 0 || (r == 0 && j%3 == 0):
+					h.Ops = append(h.Ops, "N:"+fnames[ctx.Rng.Intn(len(fnames))])
+					rootsOf = append(rootsOf, n)
+				case r < 7:
+					add(ctx.Rng.Intn(n), fnames[ctx.Rng.Intn(len(fnames))])
+				case r == 7:
+					// a burst of siblings under one parent: files and directories mixed
+					par := ctx.Rng.Intn(n)
+					for _, pi := range ctx.Rng.Perm(len(fnames))[:2+ctx.Rng.Intn(4)] {
+						add(par, fnames[pi])
+					}
+				case r == 8 || r == 9:
+					h.Ops = append(h.Ops, "M:"+fmtInt(rootsOf[ctx.Rng.Intn(n)])+":"+[]string{"s", "a", "m", "am"}[ctx.Rng.Intn(4)])
+				case r == 10:
+					h.Ops = append(h.Ops, "I:"+fmtInt(rootsOf[ctx.Rng.Intn(n)])+":"+[]string{"r", "a"}[ctx.Rng.Intn(2)])
+					nseq++
+				case r == 11 && nseq > 0:
+					h.Ops = append(h.Ops, "R:"+fmtInt(ctx.Rng.Intn(nseq)))
+				case r == 12:
+					h.Ops = append(h.Ops, "P:"+fmtInt(rootsOf[ctx.Rng.Intn(n)])+":"+[]string{"o", "w", "i"}[ctx.Rng.Intn(3)])
+				case r == 13:
+					h.Ops = append(h.Ops, "J:"+fmtInt(rootsOf[ctx.Rng.Intn(n)]))
+				case r == 14:
+					h.Ops = append(h.Ops, "W:"+fmtInt(rootsOf[ctx.Rng.Intn(n)]))
+				default:
+					h.Ops = append(h.Ops, "O:"+fmtInt(rootsOf[ctx.Rng.Intn(n)]))
+				}
+			}
+			// every kept sequence is ranged at the end, twice, with an operation in other branch strings in between
+			for q := 0; q < nseq; q++ {
+				h.Ops = append(h.Ops, "R:"+fmtInt(q), "P:"+h.seqRoot(fmtInt(q))+":o", "R:"+fmtInt(q))
+			}
+			h.Ops = append(h.Ops, "O:0", "W:0", "J:0")
+			hs = append(hs, h)
+		}
+		// directed: the sequence is requested from a small tree, Adds at depth 1, 2, 3 follow, then it is ranged
+		for depth := 1; depth <= 3; depth++ {
+			for _, alias := range []string{"r", "a"} {
+				for _, between := range []string{"", "P:0:o", "P:0:w", "P:0:i", "M:0:s", "O:0"} {
+					h := histCase{Kind: "hist", Fmt: allFormats()[(depth+len(between))%len(allFormats())]}
+					h.Ops = []string{"N:r", "A:0:a", "A:1:b", "A:2:c", "A:0:x.go", "A:0:z", "I:0:" + alias, "A:" + fmtInt(depth-1) + ":late", "A:" + fmtInt(depth-1) + ":later.go"}
+					if between != "" {
+						h.Ops = append(h.Ops, between)
+					}
+					h.Ops = append(h.Ops, "R:0", "W:0", "A:6:under-late", "P:0:o", "R:0", "R:0", "O:0")
+					hs = append(hs, h)
+				}
+			}
+		}
+	}
 	parallel(hs, ctx.Workers, func(m *Model, h histCase) {
 		// ids in the enumeration may refer to nodes an Add did not create; both sides then answer id=none / nilnode
 		diffs := runHist(m, h)
 		b, _ := json.Marshal(h)
 		nOps := 0
 		for _, op := range h.Ops {
-			if op[0] == 'O' || op[0] == 'W' || op[0] == 'J' || op[0] == 'D' || op[0] == 'V' {
+			if op[0] == 'O' || op[0] == 'W' || op[0] == 'J' || op[0] == 'D' || op[0] == 'V' || op[0] == 'M' || op[0] == 'R' {
 				nOps++
+			}
+			if op[0] == 'M' || op[0] == 'R' {
+				rep.Count("hist:op=" + ifs(op[0] == 'M', "real mkdir with extensions", "kept iterator sequence ranged"))
 			}
 		}
 		rep.Record(h, string(b), nOps >= 2 && len(h.Ops) >= 5, diffs)
